@@ -684,7 +684,6 @@ func r17NoPool(c *core.Ctx, p *load.Program, fns []*ssa.Function) {
 	}
 }
 
-
 // nonNilGuardOfMethod: the first If of fn's entry block chain that nil-tests the field `field` of the receiver.
 func nonNilGuardOfMethod(fn *ssa.Function, field string) *ssa.If {
 	if fn == nil || fn.Blocks == nil {
